@@ -57,9 +57,9 @@ pid, n, changed, rc, viol, place, prev, gen_rc = sys.argv[1:9]
 keep = {}
 try:
     old = json.loads(prev)
-    keep = {k: old[k] for k in ("first_run_before_strengthening",) if k in old}
-    if not keep and old.get("detected_by_quick") is False and int(rc) == 1:
-        keep = {"first_run_before_strengthening": "missed (exit %s) by the check as it stood when the seed arrived; detected after strengthening (see DESIGN.md section 9)" % old.get("quick_check_exit")}
+    keep = {k: old[k] for k in ("first_run_before_strengthening", "also_run", "note_on_detection") if k in old}
+    if "first_run_before_strengthening" not in keep and old.get("detected_by_quick") is False and int(rc) == 1:
+        keep["first_run_before_strengthening"] = "missed (exit %s) by the check as it stood when the seed arrived; detected after strengthening (see DESIGN.md section 9)" % old.get("quick_check_exit")
 except Exception:
     pass
 print(json.dumps({**keep, **{
